@@ -636,10 +636,18 @@ func (e *Env) sliceExpr(x *ast.SliceExpr, t types.Type) Value {
 			limit = b.Len
 		}
 		e.panicCheck(And(Le(IntLit(0), lo), Le(lo, hi), Le(hi, limit)), "slice", "slice bounds: "+exprString(x), x.Pos())
-		return Value{K: VSlice, Ref: b.Ref, Off: Add(b.Off, lo), Len: Sub(hi, lo), Cap: Sub(b.Cap, lo), ElemU: b.ElemU, Typ: t}
+		base, rel := b.Off, lo
+		if b.Base != nil {
+			base, rel = b.Base, Add(b.Rel, lo)
+		}
+		return Value{K: VSlice, Ref: b.Ref, Off: Add(b.Off, lo), Len: Sub(hi, lo), Cap: Sub(b.Cap, lo), ElemU: b.ElemU, Typ: t, Base: base, Rel: rel}
 	case VStr:
 		e.panicCheck(And(Le(IntLit(0), lo), Le(lo, hi), Le(hi, b.Len)), "slice", "slice bounds: "+exprString(x), x.Pos())
-		return Value{K: VStr, Arr: b.Arr, Off: Add(b.Off, lo), Len: Sub(hi, lo), Typ: t}
+		base, rel := b.Off, lo
+		if b.Base != nil {
+			base, rel = b.Base, Add(b.Rel, lo)
+		}
+		return Value{K: VStr, Arr: b.Arr, Off: Add(b.Off, lo), Len: Sub(hi, lo), Typ: t, Base: base, Rel: rel}
 	}
 	e.errorf("%s: unsupported slice expression", e.w.pos(x.Pos()))
 	return e.unknown(t, "slice")
